@@ -77,11 +77,28 @@ def check_op(case, pid: int, dt: int, res: str) -> str | None:
         return None                      # the occurrence list of a nested operation is not well defined by a chain
     span = abs(spec[1]) if k == 'offset' else max(abs(spec[1]), abs(spec[2])) if k == 'jitter' else NS_DAY
     base = anchor_spec(base, case.anchor.get(pid, dt))
-    bo = BaseOcc(case.tz, case.seed, base)
-    try:
-        occ = bo.window(min(dt, r) - span - 2 * NS_DAY, max(dt, r) + span + 2 * NS_DAY)
-    finally:
-        bo.close()
+    lo, hi = min(dt, r) - span - 2 * NS_DAY, max(dt, r) + span + 2 * NS_DAY
+    cache = case.__dict__.setdefault('_occ_cache', {})
+    ent = cache.get(pid)
+    if ent is None or not (ent[0] <= lo and hi <= ent[1]):
+        # one enumeration for all queries of this trigger in the case
+        qs = [q for p2, q in case.queries if p2 == pid]
+        rs = [int(x.split()[1]) for (p2, _), x in zip(case.queries, case.impl) if p2 == pid and x.startswith('ok')]
+        lo2 = min([lo, *qs]) - span - 2 * NS_DAY
+        hi2 = max([hi, *qs, *rs]) + span + 2 * NS_DAY
+        if hi2 - lo2 > 400 * NS_DAY:
+            lo2, hi2 = lo, hi
+        bo = BaseOcc(case.tz, case.seed, base)
+        try:
+            ent = (lo2, hi2, bo.window(lo2, hi2, limit=60000))
+        finally:
+            bo.close()
+        cache[pid] = ent
+    occ = ent[2]
+    if not occ:
+        return None
+    import bisect
+    occ = occ[bisect.bisect_left(occ, lo):bisect.bisect_right(occ, hi)]
     if not occ:
         return None
     where = f'[zone {case.tz}, {prod_sx(spec)[:170]}, reference {dt}]'
@@ -89,7 +106,7 @@ def check_op(case, pid: int, dt: int, res: str) -> str | None:
         off = spec[1]
         # exactness: the result is an occurrence of the underlying trigger shifted by exactly `off`; and it is the
         # shifted value of the first underlying occurrence after dt whose shifted value is after dt
-        if r - off not in occ:
+        if r - off not in set(occ):
             return f'offset result {r} is not an occurrence of the underlying trigger shifted by {off} {where}'
         cand = [n + off for n in occ if n > dt and n + off > dt]
         if cand and cand[0] != r:
